@@ -516,6 +516,44 @@ fn check_c20(ops: &[Op], info: &PlanInfo, obs: &Obs, out: &mut Vec<Viol>) {
             }
         }
     }
+    // what is printed for an unnamed system does not depend on what the other systems are called
+    if let (Some(Ok(a)), Some(Ok(b)), Some(l)) = (&obs.debug, &obs.debug_renamed, &obs.layout) {
+        if let (Ok(pa), Ok(pb)) = (parse_par_seq(a), parse_par_seq(b)) {
+            for (s, st) in l.stages.iter().enumerate() {
+                for (g, gr) in st.iter().enumerate() {
+                    for (q, id) in gr.iter().enumerate() {
+                        if !info.nodes[*id].name.is_empty() {
+                            continue;
+                        }
+                        if let (Some(ta), Some(tb)) = (pa.get(s).and_then(|x| x.get(g)).and_then(|x| x.get(q)), pb.get(s).and_then(|x| x.get(g)).and_then(|x| x.get(q))) {
+                            if ta != tb {
+                                out.push(v("C20", "placeholder-depends-on-other-names", format!("unnamed system {} is printed as {:?}; with the other systems renamed (fresh names without separators) the same system is printed as {:?}\n{}", id, ta, tb, a)));
+                            }
+                        }
+                    }
+                }
+            }
+        }
+    }
+    // the placeholders of distinct unnamed systems differ (sanitised NAMES may coincide: "a b" and "a-b" both print as a_b)
+    if let (Some(Ok(a)), Some(l)) = (&obs.debug, &obs.layout) {
+        if let Ok(pa) = parse_par_seq(a) {
+            let mut seen: BTreeSet<&String> = BTreeSet::new();
+            for (s, st) in l.stages.iter().enumerate() {
+                for (g, gr) in st.iter().enumerate() {
+                    for (q, id) in gr.iter().enumerate() {
+                        if info.nodes[*id].name.is_empty() {
+                            if let Some(t) = pa.get(s).and_then(|x| x.get(g)).and_then(|x| x.get(q)) {
+                                if !seen.insert(t) {
+                                    out.push(v("C20", "placeholder-used-twice", format!("two unnamed systems are printed with the same placeholder {:?}\n{}", t, a)));
+                                }
+                            }
+                        }
+                    }
+                }
+            }
+        }
+    }
     if let Some(l) = &obs.layout {
         for (what, l2) in &obs.layout_after_use {
             match l2 {
